@@ -54,7 +54,7 @@ PROPS = {
     "C13": {"families": ["slowop", "regress", "validate", "faults"],
             "nontrivial_rule": "an outside write or delete of the record happens while instances run",
             "mc": ["MC_Outside", "MC_OutsideVal"]},
-    "C18": {"families": ["conform", "witness", "slowop", "regress", "core", "stop", "faults", "prio"],
+    "C18": {"families": ["conform", "witness", "slowop", "regress", "core", "stop", "faults", "prio", "conn"],
             "nontrivial_rule": "snapshots of at least one leader and one non-leader state",
             "mc": ["MC_Core2"]},
     "C19": {"families": ["conform", "witness", "slowop", "regress", "core", "faults", "health", "conn", "stop"],
